@@ -33,3 +33,11 @@ static inline std::vector<std::string> split_ws(const std::string& l) {
   while (is >> w) v.push_back(w);
   return v;
 }
+
+// Component registry: each harness/run_*.cc registers its entry point; impl_run.cc dispatches.
+#include <map>
+typedef int (*ComponentFn)(int argc, char** argv);
+std::map<std::string, ComponentFn>& Components();
+struct RegisterComponent {
+  RegisterComponent(const char* name, ComponentFn fn) { Components()[name] = fn; }
+};
